@@ -735,6 +735,221 @@ def gate_runs(ctx):
     ctx.sample({"transport-gate": {"case": case, "observed": obs}})
 
 
+# ---- end to end: a real client / server Transport pair over an in-memory socket pair -------------------
+
+E2E_WD = 6.0
+
+
+def e2e_pair(server_kwargs=None, client_kwargs=None):
+    """Real handshake over tests/_loop.LoopSocket; returns (tc, ts, client channel, server channel)."""
+    import os
+    import paramiko
+    from paramiko import Transport, ServerInterface, Ed25519Key
+    from paramiko.common import AUTH_SUCCESSFUL, OPEN_SUCCEEDED
+    from _loop import LoopSocket
+    import logging
+    logging.getLogger("paramiko").setLevel(logging.CRITICAL + 1)
+
+    class Server(ServerInterface):
+        def get_allowed_auths(self, username):
+            return "password"
+
+        def check_auth_password(self, username, password):
+            return AUTH_SUCCESSFUL
+
+        def check_channel_request(self, kind, chanid):
+            return OPEN_SUCCEEDED
+
+        def check_channel_shell_request(self, channel):
+            return True
+
+    tests = os.path.join(os.path.dirname(os.path.dirname(os.path.abspath(paramiko.__file__))), "tests")
+    key = Ed25519Key.from_private_key_file(os.path.join(tests, "_support", "ed25519.key"))
+    socks, sockc = LoopSocket(), LoopSocket()
+    sockc.link(socks)
+    tc = Transport(sockc, **(client_kwargs or {}))
+    ts = Transport(socks, **(server_kwargs or {}))
+    ts.add_server_key(key)
+    ev = threading.Event()
+    ts.start_server(ev, Server())
+    tc.connect(username="u", password="p")
+    ev.wait(E2E_WD)
+    chan = tc.open_session(timeout=E2E_WD)
+    chan.invoke_shell()
+    schan = ts.accept(E2E_WD)
+    return tc, ts, chan, schan
+
+
+def e2e_close(*ts):
+    for t in ts:
+        try:
+            t.close()
+        except Exception:  # noqa
+            pass
+
+
+def e2e_transfer(cfg):
+    """sendall / sendall_stderr of more than the advertised window while the other side keeps reading: it must
+    finish, and the reader must receive exactly the data (delivered end to end, through the real Packetizer)."""
+    skw = {k: v for k, v in cfg.items() if k in ("default_window_size", "default_max_packet_size")}
+    tc, ts, chan, schan = e2e_pair(server_kwargs=skw if cfg["configured"] == "server" else None,
+                                   client_kwargs=skw if cfg["configured"] == "client" else None)
+    try:
+        if chan is None or schan is None:
+            return {"outcome": "setup-failed"}, ("e2e-setup-failed", "could not open a session over the loopback pair")
+        sender, reader = (chan, schan) if cfg["direction"] == "c2s" else (schan, chan)
+        data = bytes((7 * i + 3) % 251 for i in range(cfg["size"]))
+        stderr = cfg["stderr"]
+        got = bytearray()
+        stop = threading.Event()
+
+        def read():
+            reader.settimeout(0.2)
+            rd = reader.recv_stderr if stderr else reader.recv
+            while not stop.is_set() and len(got) < len(data):
+                try:
+                    b = rd(4096)
+                except socket.timeout:
+                    continue
+                except Exception:  # noqa
+                    break
+                if not b:
+                    break
+                got.extend(b)
+
+        rth = threading.Thread(target=read, daemon=True)
+        rth.start()
+        sender.settimeout(cfg["timeout"])
+        fn = sender.sendall_stderr if stderr else sender.sendall
+        kind, val, th = watchdog(lambda: fn(data), E2E_WD)
+        if kind == "ok":
+            rth.join(E2E_WD)
+        stop.set()
+        obs = {"outcome": "returned" if kind == "ok" else ("still blocked after %.0f s" % E2E_WD if kind == "hang"
+                                                           else type(val).__name__),
+               "bytes_given": len(data), "bytes_received_by_peer": len(got),
+               "sender_window": sender.out_window_size, "reader_in_window_threshold": reader.in_window_threshold,
+               "reader_in_window_sofar": reader.in_window_sofar}
+        prob = None
+        if kind != "ok":
+            prob = ("e2e-sendall-stalls", "sendall of more than the advertised window does not finish although the "
+                    "peer application reads everything it receives (no window adjust arrives: the advertised and the "
+                    "locally accounted receive window differ)")
+        elif bytes(got) != data:
+            prob = ("e2e-delivered-mismatch", "sendall returned but the peer did not receive exactly the data")
+        return obs, prob
+    finally:
+        e2e_close(tc, ts)
+
+
+def e2e_loss():
+    """Peer-initiated transport loss: the server goes away, the client's Transport.run ends by itself.  A second
+    thread calls sendall on a still-referenced open channel at the moment the dying transport closes its packetizer
+    (just after it marked itself inactive).  Nothing can be delivered any more, so sendall must raise; returning
+    normally means the data was silently dropped."""
+    tc, ts, chan, schan = e2e_pair()
+    res = {}
+    try:
+        if chan is None or schan is None:
+            return {"outcome": "setup-failed"}, ("e2e-setup-failed", "could not open a session over the loopback pair")
+        orig_close = tc.packetizer.close
+        fired = threading.Event()
+
+        def hooked_close():
+            if not fired.is_set():
+                fired.set()
+
+                def snd():
+                    try:
+                        res["during"] = ("ok", chan.sendall(b"D" * 100))
+                    except BaseException as e:  # noqa
+                        res["during"] = ("exc", e)
+                th = threading.Thread(target=snd, daemon=True)
+                th.start()
+                th.join(E2E_WD)
+                if th.is_alive():
+                    res["during"] = ("hang", None)
+            return orig_close()
+
+        tc.packetizer.close = hooked_close
+        chan.settimeout(2.0)
+        ts.close()                       # the peer goes away
+        fired.wait(E2E_WD)
+        tc.join(E2E_WD)
+        try:
+            res["after"] = ("ok", chan.sendall(b"A" * 10))
+        except BaseException as e:  # noqa
+            res["after"] = ("exc", e)
+
+        def show(r):
+            return "not run" if r is None else ("returned normally" if r[0] == "ok" else
+                                                ("hang" if r[0] == "hang" else type(r[1]).__name__))
+        obs = {"sendall_while_transport_dies": show(res.get("during")), "sendall_after_loss": show(res.get("after")),
+               "packetizer_close_seen": fired.is_set(), "transport_active": bool(tc.active),
+               "channel_closed": bool(chan.closed)}
+        prob = None
+        if not fired.is_set():
+            prob = ("e2e-setup-failed", "the client transport did not shut down after the server went away")
+        elif res.get("during", ("hang",))[0] != "exc":
+            prob = ("sendall-returned-on-dying-transport", "a sendall that runs while the transport is being torn "
+                    "down after the peer went away returned normally (or hung): its data was silently dropped -- the "
+                    "channels must be closed before the transport stops accepting user data")
+        elif res["after"][0] != "exc":
+            prob = ("sendall-returned-after-transport-loss", "sendall after transport loss must raise")
+        return obs, prob
+    finally:
+        e2e_close(tc, ts)
+
+
+def e2e_configs(seed, thorough):
+    grid = []
+    for configured in ("server", "client"):
+        for dws in (2048, 3276, 40000, None):
+            for direction in ("c2s", "s2c"):
+                grid.append({"configured": configured, "default_window_size": dws, "direction": direction})
+    out = []
+    picks = range(len(grid)) if thorough else [(seed * 3 + k * 5) % len(grid) for k in range(3)]
+    for n, i in enumerate(picks):
+        c = dict(grid[i])
+        if c["default_window_size"] is None:
+            del c["default_window_size"]
+        else:
+            c["default_max_packet_size"] = [4096, 32768, 1024][(i + n) % 3]
+        c["stderr"] = (c["direction"] == "s2c") and (i % 2 == 0)
+        c["size"] = [9000, 70000, 5000][(i + n) % 3]
+        c["timeout"] = [None, 30.0][(i + n) % 2]
+        out.append(c)
+    # the smallest documented-legal window on the receiving server, always
+    out.append({"configured": "server", "default_window_size": 2048, "default_max_packet_size": 32768,
+                "direction": "c2s", "stderr": False, "size": 7000, "timeout": None})
+    return out
+
+
+def e2e_runs(ctx):
+    for cfg in e2e_configs(ctx.seed, ctx.thorough):
+        case = {"e2e": "transfer", "cfg": cfg}
+        try:
+            obs, prob = e2e_transfer(cfg)
+        except Exception as e:  # noqa
+            obs, prob = {"exception": repr(e)}, ("e2e-setup-failed", "the loopback pair could not be set up")
+        ctx.count(("e2e", repr(cfg)), kind="e2e-transfer")
+        if prob and prob[0] == "e2e-setup-failed":
+            ctx.notes.append("e2e setup failed once: %r" % (obs,))
+        elif prob:
+            ctx.fail(prob[0], prob[1], case=case, expected="sendall finishes and the peer receives the data",
+                     observed=obs)
+    try:
+        obs, prob = e2e_loss()
+    except Exception as e:  # noqa
+        obs, prob = {"exception": repr(e)}, ("e2e-setup-failed", "")
+    ctx.count(("e2e-loss",), kind="e2e-loss")
+    if prob and prob[0] == "e2e-setup-failed":
+        ctx.notes.append("e2e loss scenario could not be set up: %r" % (obs,))
+    elif prob:
+        ctx.fail(prob[0], prob[1], case={"e2e": "loss"}, expected="socket.error / an exception", observed=obs)
+    ctx.sample({"e2e-loss": obs})
+
+
 def run(ctx):
     rng = ctx.rng
     scale = 8 if ctx.thorough else 1
@@ -861,6 +1076,7 @@ def run(ctx):
                 break
         multi_sender_runs(ctx)
         gate_runs(ctx)
+        e2e_runs(ctx)
         # one real timed wait that runs out (0.2 s)
         chan, tr = new_channel(0, 69, 0.2)
         kind, val, th = watchdog(lambda: chan.sendall(b"abc"), WATCHDOG)
@@ -881,6 +1097,15 @@ def run(ctx):
 
 def replay(ctx, rep):
     case = rep.get("case") or {}
+    if isinstance(case, dict) and case.get("e2e"):
+        if ctx.proof is None:
+            ctx.prove()
+        obs, prob = e2e_loss() if case["e2e"] == "loss" else e2e_transfer(case["cfg"])
+        ctx.count(("replay", repr(case)))
+        ctx.count(("replay2", repr(case)))
+        if prob:
+            ctx.fail(prob[0], prob[1], case=case, observed=obs)
+        return
     if isinstance(case, dict) and case.get("gate"):
         if ctx.proof is None:
             ctx.prove()
